@@ -3,6 +3,7 @@
 package rdbcat
 
 import (
+	"fmt"
 	"bytes"
 	"math"
 
@@ -220,6 +221,17 @@ func Values(level int) []*rdbgen.Value {
 	add(rdbgen.QuicklistVal(nil, false), "0")
 	add(rdbgen.QuicklistVal([][]rdbgen.ZE{ze}, false), "1")
 	add(rdbgen.QuicklistVal([][]rdbgen.ZE{ze[:1], nil, ze[1:]}, true), "3-lzf-emptynode")
+	// several LZF-compressed strings inside ONE value, later ones no longer than earlier ones
+	// (a decompression buffer reused within the value would overwrite what was handed out)
+	lz := func(ch byte, n int) rdbgen.Str { return rdbgen.LZFStr(rep(ch, n), "ref", 1, 264) }
+	add(rdbgen.ListVal([]rdbgen.Str{lz('a', 90), lz('b', 80), lz('c', 80), lz('d', 20)}, rdbgen.LCanon), "4-lzf-elements")
+	add(rdbgen.SetVal([]rdbgen.Str{lz('s', 70), lz('t', 60)}, rdbgen.LCanon), "2-lzf-members")
+	add(rdbgen.HashVal([]rdbgen.Str{lz('f', 64), lz('v', 64), lz('g', 50), lz('w', 40)}, rdbgen.LCanon), "2-lzf-pairs")
+	add(rdbgen.ZSetVal([]rdbgen.Str{lz('m', 66), lz('n', 55)}, []float64{1, 2}, true), "2-lzf-members")
+	longZE := func(ch byte, n int) []rdbgen.ZE {
+		return []rdbgen.ZE{{Enc: "s14", S: rep(ch, n)}, {Enc: "s6", S: []byte{ch}}}
+	}
+	add(rdbgen.QuicklistVal([][]rdbgen.ZE{longZE('x', 200), longZE('y', 180), longZE('z', 100)}, true), "3-lzf-nodes")
 	// streams
 	for packs := 0; packs <= 2; packs++ {
 		var pk [][2][]byte
@@ -399,6 +411,22 @@ func LZFFamily() []rdbgen.Str {
 			}
 			s := rdbgen.LZFStr(v, "ref", period, n)
 			s.Form = "lzf-d" + string([]byte{byte('0' + period/10), byte('0' + period%10)}) + "-n"
+			out = append(out, s)
+		}
+	}
+	// far back-references: the 13-bit offset field around its byte boundary and at its end
+	for _, period := range []int{255, 256, 257, 300, 511, 512, 513, 4096, 8191, 8192} {
+		for _, n := range []int{3, 9, 264} {
+			seed := make([]byte, period)
+			for i := range seed {
+				seed[i] = byte('a' + (i*7+i/26+period)%26)
+			}
+			v := make([]byte, period+n+5)
+			for i := range v {
+				v[i] = seed[i%period]
+			}
+			s := rdbgen.LZFStr(v, "ref", period, n)
+			s.Form = fmt.Sprintf("lzf-far-d%d-n", period)
 			out = append(out, s)
 		}
 	}
